@@ -335,3 +335,21 @@ func MayReturn(info *types.Info, c *ast.CallExpr) bool {
 	}
 	return true
 }
+
+// FuncOfObj finds the declaration of a repo function by its object (nil if it
+// is not declared with a body in a loaded repo package).
+func (p *Prog) FuncOfObj(fn *types.Func) *Func {
+	if fn == nil || fn.Pkg() == nil || !strings.HasPrefix(fn.Pkg().Path(), ModPath) {
+		return nil
+	}
+	rel := strings.TrimPrefix(strings.TrimPrefix(fn.Pkg().Path(), ModPath), "/")
+	name := fn.Name()
+	if r := recvNamed(fn); r != "" {
+		name = r + "." + name
+	}
+	f := p.Func(rel, name)
+	if f != nil && f.Obj != fn {
+		return nil
+	}
+	return f
+}
